@@ -167,8 +167,14 @@ func c04run(out *rec.Out, c c04case, rng *rec.Rng, stats map[string]int) {
 			x.Default = f.ID
 		} else {
 			v := fmt.Sprintf("b%d", ci)
-			vars[v] = (c.truth >> ci) & 1
-			g.Connect(x, b, &eng.Cond{Op: "eq", Var: v, K: 1})
+			if (c.c+c.truth+c.toks)%2 == 0 {
+				vars[v] = (c.truth >> ci) & 1
+				g.Connect(x, b, &eng.Cond{Op: "eq", Var: v, K: 1})
+			} else {
+				// `b < 1`: the same source text in the expr language and in XPath
+				vars[v] = 1 - (c.truth>>ci)&1
+				g.Connect(x, b, &eng.Cond{Op: "lt", Var: v, K: 1})
+			}
 			ci++
 		}
 		g.Connect(b, en, nil)
@@ -207,6 +213,24 @@ func c04run(out *rec.Out, c c04case, rng *rec.Rng, stats map[string]int) {
 	if sh := rng.Fork(); sh.Intn(2) == 0 { // forked stream: one draw of the case's stream whatever the graph size
 		g.ShuffleDecl(sh.Intn)
 		stats["shuffled_declaration_order"]++
+	}
+	if c.toks == 1 && (c.c+c.defPos)%2 == 0 {
+		// the SAME document in the OTHER expression language ran earlier in this program (same ids, and for the `<`
+		// conditions the same source text): nothing of it may be left when the document under test runs
+		g.XPath = !g.XPath
+		decoy := g.XML()
+		g.XPath = !g.XPath
+		if in0, _, err := eng.Start(decoy, anyVars); err == nil {
+			for k := 0; k < 4 && in0.Quiesce(2*timeSecond); k++ {
+				p0 := in0.Pending()
+				if len(p0) == 0 {
+					break
+				}
+				in0.AnswerOK(p0[0], nil)
+			}
+			in0.Stop(2 * timeSecond)
+			stats["cases_after_the_same_document_in_the_other_language"]++
+		}
 	}
 	in, defs, err := eng.Start(g.XML(), anyVars)
 	if err != nil {
